@@ -266,6 +266,21 @@ def r4_rendering(rep, facts):
     rep.check(R, 'Display for TomlError|line-lookup', nth, "raw.split('\\n').nth(line)", 'the offending line is no longer looked up with split(\'\\n\').nth(line) (lines() drops the empty last line: panic at end of input after a newline)', facts.loc(b))
 
 
+def r6_depth_cause(rep, facts):
+    R = rep.rule('C15/R6', 'a rejection by the dotted-key depth check carries its cause: the check is attached with try_map (the CustomError becomes the '
+                 'error\'s cause and message), not with verify (which only says "no" and leaves an empty message)', floor=1)
+    from . import parsemodel as pm
+    g = pm.model(facts)
+    t = pm.term(g, 'key::key')
+    b = facts.body(pm.P + 'key::key')
+    found = []
+    for kind, i, node in pm.filters(g, t):
+        clo = node.get('filt')
+        if clo is not None and any(any(c.endswith('RecursionCheck::check_depth') for c in callee_all(n)) for n in calls_in(clo)):
+            found.append(kind)
+    rep.check(R, 'key::key|check_depth-filter', found == ['try_map'], f'{found}', f'the depth check in key() is attached with {found or "no filter"}: the rejection has no message', facts.loc(b))
+
+
 def rules(rep, facts):
     feats = set(facts.crates.get('toml_edit', {}).get('features', []))
     if 'toml_edit' not in facts.crates:
@@ -278,6 +293,11 @@ def rules(rep, facts):
     if 'parse' in feats:
         r3_messages(rep, facts)
     r4_rendering(rep, facts)
+    if 'parse' in feats:
+        from .rules_c14 import r1_provenance
+        r1_provenance(rep, facts)
+        rep.relabel('C14/R1', 'C15/R5', 'the spans errors are located with exist and are well-formed: ')
+        r6_depth_cause(rep, facts)
 
 
 def run(tier):
